@@ -449,6 +449,76 @@ pub fn exec_misc(st: &mut MiscState, op: &Value) -> Value {
             let qs: Vec<_> = op["qs"].as_array().unwrap().iter().map(g2a).collect();
             Bls12::pairing_multi_product(&ps, &qs).to_j()
         }
+        "ferel" => {
+            let f = Fq12::from_j(&op["f"]);
+            let g2 = Fq12::from_j(&op["g"]);
+            let mut fg = f;
+            fg.mul_assign(&g2);
+            json!({"fg": fg.to_j(), "ef": fq12_opt(Bls12::final_exponentiation(&f)),
+                   "eg": fq12_opt(Bls12::final_exponentiation(&g2)),
+                   "efg": fq12_opt(Bls12::final_exponentiation(&fg))})
+        }
+        // labelled pairs: P_i = [a_i] g1, Q_i = [b_i] g2 (small signed integers)
+        "pairl" => {
+            let small = |a: i64| -> pairing::bls12_381::FrRepr { pairing::bls12_381::FrRepr::from(a.abs() as u64) };
+            let ps: Vec<G1Affine> = op["as"].as_array().unwrap().iter().map(|a| {
+                let a = a.as_i64().unwrap();
+                let mut p = G1Affine::one().mul(small(a));
+                if a < 0 { p.negate(); }
+                p.into_affine()
+            }).collect();
+            let qs: Vec<G2Affine> = op["bs"].as_array().unwrap().iter().map(|b| {
+                let b = b.as_i64().unwrap();
+                let mut q = G2Affine::one().mul(small(b));
+                if b < 0 { q.negate(); }
+                q.into_affine()
+            }).collect();
+            let mut out = serde_json::Map::new();
+            out.insert("ps".into(), Value::Array(ps.iter().map(|x| aff_to_j(x)).collect()));
+            out.insert("qs".into(), Value::Array(qs.iter().map(|x| aff_to_j(x)).collect()));
+            match op["fn"].as_str().unwrap() {
+                "miller" => {
+                    let prep: Vec<_> = ps.iter().zip(qs.iter()).map(|(p, q)| (p.prepare(), q.prepare())).collect();
+                    let refs: Vec<_> = prep.iter().map(|(a, b)| (a, b)).collect();
+                    let ml = Bls12::miller_loop(refs.iter());
+                    out.insert("fe".into(), fq12_opt(Bls12::final_exponentiation(&ml)));
+                }
+                "pmulti" => {
+                    out.insert("v".into(), Bls12::pairing_multi_product(&ps, &qs).to_j());
+                }
+                "pprod" => {
+                    out.insert("v".into(), Bls12::pairing_product(ps[0], qs[0], ps[1], qs[1]).to_j());
+                }
+                "reuse" => {
+                    let pp: Vec<_> = ps.iter().map(|x| x.prepare()).collect();
+                    let qq: Vec<_> = qs.iter().map(|x| x.prepare()).collect();
+                    let mut outs = vec![];
+                    for l in op["lists"].as_array().unwrap() {
+                        let refs: Vec<_> = l.as_array().unwrap().iter()
+                            .map(|ij| (&pp[ij[0].as_u64().unwrap() as usize], &qq[ij[1].as_u64().unwrap() as usize]))
+                            .collect();
+                        let ml = Bls12::miller_loop(refs.iter());
+                        outs.push(fq12_opt(Bls12::final_exponentiation(&ml)));
+                    }
+                    out.insert("v".into(), Value::Array(outs));
+                }
+                f => panic!("unknown pairl fn {}", f),
+            }
+            Value::Object(out)
+        }
+        // arbitrary pairs: individual pairings, joint Miller loop, slice helper
+        "pairr" => {
+            let prs: Vec<(G1Affine, G2Affine)> = op["pairs"].as_array().unwrap().iter()
+                .map(|x| (g1a(&x[0]), g2a(&x[1]))).collect();
+            let each: Vec<Value> = prs.iter().map(|(p, q)| Bls12::pairing(*p, *q).to_j()).collect();
+            let prep: Vec<_> = prs.iter().map(|(p, q)| (p.prepare(), q.prepare())).collect();
+            let refs: Vec<_> = prep.iter().map(|(a, b)| (a, b)).collect();
+            let ml = Bls12::miller_loop(refs.iter());
+            let ps: Vec<G1Affine> = prs.iter().map(|x| x.0).collect();
+            let qs: Vec<G2Affine> = prs.iter().map(|x| x.1).collect();
+            json!({"each": each, "fe": fq12_opt(Bls12::final_exponentiation(&ml)),
+                   "multi": Bls12::pairing_multi_product(&ps, &qs).to_j()})
+        }
         "finalexp" => fq12_opt(Bls12::final_exponentiation(&Fq12::from_j(&op["f"]))),
         "st" => exec_stream(st, op),
         "wn" => match g {
